@@ -69,6 +69,12 @@ pub fn run(ctx: &Ctx, rng: Rng, rep: &mut Report) {
     let flavors = flavors_for(ctx, &[Flavor::Sync], &[Flavor::Sync]);
     let isz = item_size();
     let watchdog = Duration::from_secs(if ctx.thorough() { 300 } else { 90 });
+    if ctx.prop == "C05" {
+        // the wiring of the real ticker, once per flavour and shard
+        for f in [Flavor::Sync, Flavor::Async(Exec::TokioMt), Flavor::Async(Exec::ThreadPerTask)] {
+            super::types::real_ticker_scenario(f, rng.derive(777).next() >> 30, rep);
+        }
+    }
     for h in 0..histories {
         let mut hrng = rng.derive(h);
         let hist_no = ctx.shard * 1_000_000 + h;
